@@ -9,6 +9,8 @@ import (
 	"verif/internal/check"
 	"verif/internal/e1"
 	"verif/internal/e3"
+	"verif/internal/fakes"
+	"verif/internal/scen"
 	"verif/internal/sut"
 )
 
@@ -21,7 +23,7 @@ func partRaceStorms(c *check.Ctx, a *acc) {
 		c.Inconc("race build failed: " + err.Error())
 		return
 	}
-	execs := c.Pick(12, 72)
+	execs := c.Pick(18, 96)
 	var mu sync.Mutex
 	var total e3.StormResult
 	reports := map[string]*e3.RaceReport{}
@@ -127,10 +129,108 @@ func partRaceStorms(c *check.Ctx, a *acc) {
 	a.add(done, nontrivial, "E3: a storm is one execution of a -race build of the lab SUT (production logging/metrics decorators, all modules) under 2-16 unsynchronised clients hopping among 1-3 sessions (all request kinds, joins, switches, abrupt reconnects, deferred updates at 1/5/15 ms frames), free-running or under stateless jitter at the injected scheduling points; distinct by seed/shape, non-trivial when at least 2 connections had requests outstanding at the same time; oracle: race-detector reports with a hagall frame (deduplicated by entry-point pair), runtime fatals, requests that never complete, goroutines left parked in hagall code", samples...)
 }
 
+// partRealBinaryStorms: the same storms against a -race build of the real
+// binary (cmd/main.go wiring, production decorators, fake discovery service).
+func partRealBinaryStorms(c *check.Ctx, a *acc) {
+	bin, err := c.WS.Build("real", "race")
+	if err != nil {
+		c.Inconc("race build of the real binary failed: " + err.Error())
+		return
+	}
+	execs := c.Pick(4, 24)
+	var mu sync.Mutex
+	done, nontrivial, allReports := 0, 0, 0
+	var requests int64
+	reports := map[string]*e3.RaceReport{}
+	parallel(execs, 4, func(i int) {
+		hds, err := fakes.NewHDS()
+		if err != nil {
+			c.Inconc(err.Error())
+			return
+		}
+		defer hds.Close()
+		p, err := c.WS.StartReal(bin, sut.RealOpts{HDS: hds.URL(), NCS: fakes.ClosedPortURL(), Race: true, Frame: []time.Duration{time.Millisecond, 5 * time.Millisecond, 15 * time.Millisecond}[i%3], Name: "realrace"})
+		if err != nil {
+			c.Inconc(err.Error())
+			return
+		}
+		defer p.Kill()
+		for k := 0; k < 1000 && hds.Secret() == ""; k++ {
+			time.Sleep(10 * time.Millisecond)
+		}
+		secret := hds.Secret()
+		if secret == "" {
+			c.Inconc("the real binary did not register with the fake discovery service")
+			return
+		}
+		token := signJWT("HS256", secret, map[string]any{"alg": "HS256", "typ": "JWT"}, map[string]any{"exp": time.Now().Add(time.Hour).Unix(), "app_key": "storm"})
+		cfg := e3.StormCfg{Seed: c.Seed*211 + int64(i), Clients: 3 + (i*5)%13, Sessions: 1 + i%3, Ops: c.Pick(160, 300), Mods: "vod",
+			Dial: func() (*scen.C, error) { return scen.DialReal(p, token) }}
+		res := e3.Storm(p, cfg)
+		alive := p.Alive()
+		var exit, tail string
+		if !alive {
+			exit, tail = p.ExitInfo(), p.CrashHead(4000)
+		}
+		var stuck []string
+		if alive {
+			d1, e1_ := p.Goroutines()
+			time.Sleep(300 * time.Millisecond)
+			d2, e2_ := p.Goroutines()
+			if e1_ == nil && e2_ == nil {
+				stuck = e1.StuckGoroutines(d1, d2)
+			}
+		}
+		p.Kill()
+		n, hs := e3.ParseRaces(p.RaceReports())
+		mu.Lock()
+		defer mu.Unlock()
+		done++
+		allReports += n
+		requests += res.Requests
+		if res.Overlaps > 0 {
+			nontrivial++
+		}
+		for _, h := range hs {
+			h := h
+			if reports[h.Key] == nil {
+				reports[h.Key] = &h
+			} else {
+				reports[h.Key].Count += h.Count
+			}
+		}
+		if !alive {
+			c.Report(&check.Finding{Props: []string{"C09", "C08"}, Clause: "process/exited", Engine: "E3 race storm (real binary)", Config: fmt.Sprintf("%+v", cfg),
+				Detail: "the real binary ended during a storm of concurrent clients: " + exit + "\n" + tail})
+		}
+		for _, u := range res.Unanswered {
+			c.Report(&check.Finding{Props: []string{"C09"}, Clause: "liveness/request-never-completed", Engine: "E3 race storm (real binary)", Detail: u})
+		}
+		if len(stuck) > 0 {
+			c.Report(&check.Finding{Props: []string{"C09", "C08"}, Clause: "liveness/wedged", Engine: "E3 race storm (real binary)",
+				Detail: "after every client of the storm had finished, goroutines remain parked in hagall code:\n" + strings.Join(stuck, "\n---\n")})
+		}
+		for _, e := range res.Errors {
+			c.Inconc("real binary storm: " + e)
+		}
+	})
+	for _, r := range reports {
+		c.Report(&check.Finding{Props: []string{"C09"}, Clause: "race", Trigger: r.Key, Engine: "E3 race storm (real binary)",
+			Detail: fmt.Sprintf("the race detector reported unsynchronised access in the real binary (%d reports with this entry-point pair):\n%s", r.Count, r.Sample)})
+	}
+	c.Coverage["race_reports_inside_hagall_common_hdsclient_not_judged"] = e3.DependencyRaces
+	c.Coverage["real_binary_race_executions"] = done
+	c.Coverage["real_binary_race_reports_total"] = allReports
+	c.Coverage["real_binary_storm_requests"] = requests
+	a.add(done, nontrivial, "E3 on the real binary: the same storms against a -race build of cmd/main.go (registered with a fake discovery service, clients admitted with minted tokens), same oracles",
+		map[string]any{"engine": "E3 race storm (real binary)", "executions": done, "requests": requests})
+}
+
 func init() {
 	registry["C09"] = func(c *check.Ctx) int {
 		a := &acc{}
 		partRaceStorms(c, a)
+		partRealBinaryStorms(c, a)
 		return a.finish(c)
 	}
 }
